@@ -324,6 +324,14 @@ theorem C10_templates_agree_now :
     Arc.Generated.C10.countKeep = Arc.Generated.C10.rewriteKeepLocal ∧
     Arc.Generated.C10.countKeep = Arc.Generated.C10.rewriteKeepRemote := by decide
 
+/-- **C10_scan_facts.** Two facts of the current source the model relies on (`affectedFiles` filters
+the WHOLE dataset; `handle` is a function of the stored data and the request only): the
+affected-file scan covers every listed parquet file (no chunk result is dropped), and a confirmed
+delete recomputes the affected set from storage — no state is carried over from a dry run. -/
+theorem C10_scan_facts :
+    Arc.Generated.C10.affectedScanCoversAllFiles = true ∧
+    Arc.Generated.C10.confirmRescansStorage = true := by decide
+
 /-- **C10_dry_inert.** A dry run never changes the stored rows (any templates, any gates). -/
 theorem C10_dry_inert (kc kr : Keep) (ds : Dataset) (q : Req) (h : q.dry = true) :
     (handle kc kr ds q).1 = ds := by
